@@ -51,6 +51,43 @@ static bool stub_sink(struct upipe *upipe, struct uref *uref, struct upump **upu
 }
 static void stub_uref_free_cnt(struct uref *uref) { int k = UIDX(uref); if (k >= 0) g_freed[k]++; else g_free_unknown++; }
 static int stub_throw(struct uprobe *uprobe, struct upipe *upipe, int event, va_list args) { return UBASE_ERR_NONE; }
+/* ---- source pumps and their blockers (stub event-loop manager: hands out / takes back blocker structures) ---------- */
+#ifndef NBLK
+#define NBLK 0
+#endif
+#ifndef PUMPSEL
+#define PUMPSEL 2           /* 0: upump_p == NULL, 1: *upump_p == NULL, 2: pump A, 3: pump B */
+#endif
+static struct upump g_pumpA, g_pumpB; static struct upump_mgr g_pump_mgr;
+static struct upump_blocker g_bl0, g_bl1, g_blnew;          /* g_bl0 on pump A, g_bl1 on pump B (when on the list) */
+static int g_bl_alloc, g_bl_freed[3], g_bl_free_unknown; static bool g_bl_alloc_fails;
+static int stub_pump_control(struct upump *upump, int command, va_list args)
+{
+    if (command == UPUMP_ALLOC_BLOCKER) {
+        struct upump_blocker **p = va_arg(args, struct upump_blocker **);
+        g_bl_alloc++;
+        if (g_bl_alloc_fails) { *p = NULL; return UBASE_ERR_ALLOC; }
+        *p = &g_blnew; return UBASE_ERR_NONE;
+    }
+    if (command == UPUMP_FREE_BLOCKER) {
+        struct upump_blocker *b = va_arg(args, struct upump_blocker *);
+        if (b == &g_bl0) g_bl_freed[0]++; else if (b == &g_bl1) g_bl_freed[1]++; else if (b == &g_blnew) g_bl_freed[2]++; else g_bl_free_unknown++;
+        return UBASE_ERR_NONE;
+    }
+    return UBASE_ERR_UNHANDLED;
+}
+/* the blockers list is exactly bseq[0..n) */
+static bool spec_blockers_are(struct upump_blocker *const *bseq, int n)
+{
+    struct uchain *h = &g_p.blockers, *c = h;
+    for (int k = 0; k < 3; k++) {
+        if (k >= n) break;
+        struct uchain *nx = c->next;
+        if (nx != &bseq[k]->uchain || nx->prev != c) return false;
+        c = nx;
+    }
+    return c->next == h && h->prev == c;
+}
 /* the held sequence is exactly seq[0..n) */
 static bool spec_seq_is(struct uref *const *seq, int n)
 {
@@ -73,6 +110,14 @@ static bool spec_seq_is(struct uref *const *seq, int n)
     for (int k_ = 0; k_ <= MAXH; k_++) { struct uref *u_ = UR(k_); u_->mgr = &g_umgr; u_->ubuf = NULL; u_->udict = NULL; uchain_init(&u_->uchain); g_freed[k_] = 0; g_seen[k_] = NULL; } \
     for (int k_ = 0; k_ < NHELD; k_++) { ulist_add(&g_p.urefs, &UR(k_)->uchain); g_p.nb_urefs++; } \
     g_offered = g_taken = g_order_bad = g_free_unknown = 0; \
+    g_pump_mgr.upump_control = stub_pump_control; g_pumpA.mgr = &g_pump_mgr; g_pumpB.mgr = &g_pump_mgr; \
+    g_bl_alloc = 0; g_bl_freed[0] = g_bl_freed[1] = g_bl_freed[2] = 0; g_bl_free_unknown = 0; \
+    { VIN(uint8_t, blfail); g_bl_alloc_fails = (blfail & 1) != 0; } \
+    g_bl0.upump = &g_pumpA; g_bl0.cb = vin_pipe_block_input_cb; g_bl0.opaque = upipe; uchain_init(&g_bl0.uchain); \
+    g_bl1.upump = &g_pumpB; g_bl1.cb = vin_pipe_block_input_cb; g_bl1.opaque = upipe; uchain_init(&g_bl1.uchain); \
+    if (NBLK >= 1) ulist_add(&g_p.blockers, &g_bl0.uchain); \
+    if (NBLK >= 2) ulist_add(&g_p.blockers, &g_bl1.uchain); \
+    struct upump_blocker *bseq[4] = { NULL, NULL, NULL, NULL }; \
     struct uref *seq[MAXH + 2]; for (int k_ = 0; k_ < MAXH + 2; k_++) seq[k_] = NULL
 
 void h_hold(void)
@@ -120,8 +165,41 @@ void h_clean(void)
     BUILD();
     vin_pipe_clean_input(upipe);
     VPOST(spec_seq_is(seq, 0) && g_free_unknown == 0 && ulist_empty(&g_p.blockers));
+    /* every blocker the pipe held on a source pump is released exactly once (the pumps may run again) */
+    VPOST(g_bl_freed[0] == (NBLK >= 1 ? 1 : 0) && g_bl_freed[1] == (NBLK >= 2 ? 1 : 0) && g_bl_free_unknown == 0);
     VIN(uint8_t, gk); VASSUME(gk < MAXH);
     VPOST(g_freed[gk] == (gk < NHELD ? 1 : 0));
+    VCANARY();
+}
+void h_block_input(void)
+{
+    BUILD();
+    struct upump *sel = PUMPSEL == 2 ? &g_pumpA : PUMPSEL == 3 ? &g_pumpB : NULL;
+    struct upump **upump_p = PUMPSEL == 0 ? NULL : &sel;
+    for (int k = 0; k < NHELD; k++) seq[k] = UR(k);
+    vin_pipe_block_input(upipe, upump_p);
+    bool already = (PUMPSEL == 2 && NBLK >= 1) || (PUMPSEL == 3 && NBLK >= 2);
+    bool should = PUMPSEL >= 2 && (unsigned)NHELD > maxlen && !already;
+    int n = 0; if (NBLK >= 1) bseq[n++] = &g_bl0; if (NBLK >= 2) bseq[n++] = &g_bl1;
+    VPOST(spec_seq_is(seq, NHELD));                              /* held buffers untouched */
+    if (should && !g_bl_alloc_fails) {
+        bseq[n++] = &g_blnew;
+        /* one blocker on that pump, calling back into this pipe */
+        VPOST(spec_blockers_are(bseq, n) && g_bl_alloc == 1 && g_blnew.upump == sel && g_blnew.cb == vin_pipe_block_input_cb && g_blnew.opaque == upipe);
+    } else {
+        VPOST(spec_blockers_are(bseq, n) && g_bl_alloc == (should ? 1 : 0));
+    }
+    VCANARY();
+}
+void h_unblock_input(void)
+{
+    BUILD();
+    for (int k = 0; k < NHELD; k++) seq[k] = UR(k);
+    vin_pipe_unblock_input(upipe);
+    int n = 0; if (NBLK >= 1) bseq[n++] = &g_bl0; if (NBLK >= 2) bseq[n++] = &g_bl1;
+    VPOST(spec_seq_is(seq, NHELD) && g_bl_free_unknown == 0);
+    if ((unsigned)NHELD > maxlen) { VPOST(spec_blockers_are(bseq, n) && g_bl_freed[0] == 0 && g_bl_freed[1] == 0); }      /* still too many held: stay blocked */
+    else { VPOST(ulist_empty(&g_p.blockers) && g_bl_freed[0] == (NBLK >= 1) && g_bl_freed[1] == (NBLK >= 2)); }           /* drained: every source pump released once */
     VCANARY();
 }
 void h_max_length(void)
